@@ -11,7 +11,7 @@ EXPLANATION = ('Static rules on the two-input operators: M0 both inputs are wire
                'slot empty); M2 merge/combine_latest/zip complete downstream only on the second completion (first completion only sets the '
                'flag); M3 take_until completes the main slot on the notifier\'s first item and ignores the notifier\'s own terminal, '
                'skip_until opens the gate on a notifier item only; M4 sample and buffer move the gathered data out before emitting it '
-               '(no duplication on the next tick); M6 the source side of sample never emits (values are released by notifier events only); M5 zip\'s pending queues are first-in-first-out (necessary for pairing the i-th items); M7 latest-value flow, by provenance dataflow: combine_latest stores the incoming item first and combines it with the other side\'s stored value; with_latest_from pairs the incoming item with the stored secondary value and its secondary observer only stores; sample stores on the source side and releases+empties on a tick; merge forwards the incoming item unchanged; M9 the shared downstream slot of merge/zip/combine_latest stays occupied while an item is delivered (items go through a borrowed slot, same rule as C01.P3): a notification of the other input that arrives meanwhile waits for the lock instead of finding the slot empty and being lost; M8 when the closing notifier of buffer() or the sampler of sample() completes, what was gathered since the last tick is released before the completion (skipped only when nothing is gathered). Does not decide pairing, latest-value selection or per-interleaving outputs.')
+               '(no duplication on the next tick); M6 the source side of sample never emits (values are released by notifier events only); M5 zip\'s pending queues are first-in-first-out (necessary for pairing the i-th items); M7 latest-value flow, by provenance dataflow: combine_latest stores the incoming item first and combines it with the other side\'s stored value; with_latest_from pairs the incoming item with the stored secondary value and its secondary observer only stores and its completion leaves the stored value in place; sample stores on the source side and releases+empties on a tick; merge forwards the incoming item unchanged; M9 the shared downstream slot of merge/zip/combine_latest stays occupied while an item is delivered (items go through a borrowed slot, same rule as C01.P3): a notification of the other input that arrives meanwhile waits for the lock instead of finding the slot empty and being lost; M8 when the closing notifier of buffer() or the sampler of sample() completes, what was gathered since the last tick is released before the completion (skipped only when nothing is gathered). Does not decide pairing, latest-value selection or per-interleaving outputs.')
 TECHNIQUE = 'static analysis: rule automata and path-sensitive provenance dataflow over MIR event graphs (custom rustc_private driver)'
 ASSUMPTIONS = ['the interleaving of the two inputs is arbitrary; only per-event handlers are analysed']
 
@@ -333,7 +333,21 @@ def m7(cx):
                 stored = [v for k, v in sm['store'].items() if k[0] == 'S']
                 if not any(v == ('some', item) for v in stored) and all(P.decided(v) for v in stored):
                     bad = 'a path of next() does not store the incoming item as the latest value'
-            return [(fn, bad, 'stores the incoming item as the latest value, emits nothing')]
+            rows_ = [(fn, bad, 'stores the incoming item as the latest value, emits nothing')]
+            if tag == 'ops::with_latest_from::BObserver':
+                # the latest secondary value outlives the secondary input: its completion leaves the cell alone
+                # (primary items that arrive later are still paired with it)
+                fc = cx.method(im, 'complete')
+                if fc is not None:
+                    gc = cx.graph(fc['key'])
+                    badc = None
+                    for sm, key in P.summaries(gc)[0]:
+                        if any(k[0] == 'S' for k in sm['store']):
+                            badc = 'with_latest_from: the completion of the secondary input writes the latest-value cell: primary items that arrive afterwards find no secondary value and are dropped'
+                    if any(n_['kind'] == 'call' and n_['name'] in TAKE for n_ in gc.nodes):
+                        badc = 'with_latest_from: the completion of the secondary input empties the latest-value cell: primary items that arrive afterwards find no secondary value and are dropped'
+                    rows_.append((fc, badc, 'the completion of the secondary input leaves the latest value in place'))
+            return rows_
         if tag == 'ops::sample::SampleObserver':
             fn = cx.method(im, 'next')
             sums, _ = P.summaries(cx.graph(fn['key']))
